@@ -343,12 +343,22 @@ def fmtOf (table : List (UInt64 × List UInt8)) (b : UInt64) : List UInt8 :=
 def hexToUInt64 (s : String) : UInt64 :=
   UInt64.ofNat (s.toList.foldl (fun acc c => acc * 16 + (hexVal? c).getD 0) 0)
 
+def mutOfName (n : String) (u : Bool) : Option Mut :=
+  match n with
+  | "bitflip" => some .bitflip | "boundary" => some .boundary | "offbyone" => some .offbyone
+  | "stringlen" => some .stringlen | "character" => some .character
+  | "memoindex" => some (.memoindex u) | "typeconfusion" => some (.typeconfusion u)
+  | _ => none
+
 def fullCfg (toks : List String) : Cfg :=
   let c := cfgOf toks
   let mu := match kv toks "mu" with
     | some v => v == "1"
     | none => c.unsafeMut
-  { c with mutators := G.mutsOfMask (kvNat toks "mask") mu,
+  let ms : List Mut := match kv toks "muts" with
+    | some v => if v == "-" then [] else (v.splitOn ",").filterMap (fun n => mutOfName n mu)
+    | none => G.mutsOfMask (kvNat toks "mask") mu
+  { c with mutators := ms,
            rateBits := G.clampRate (hexToUInt64 (kvD toks "rate" "3fb999999999999a")) }
 
 def firstDiff : List UInt8 → List UInt8 → Nat → Option Nat
@@ -448,13 +458,6 @@ def utf8Decode : List UInt8 → List Char
       | _ => []
 termination_by l => l.length
 decreasing_by all_goals simp_wf; all_goals omega
-
-def mutOfName (n : String) (u : Bool) : Option Mut :=
-  match n with
-  | "bitflip" => some .bitflip | "boundary" => some .boundary | "offbyone" => some .offbyone
-  | "stringlen" => some .stringlen | "character" => some .character
-  | "memoindex" => some (.memoindex u) | "typeconfusion" => some (.typeconfusion u)
-  | _ => none
 
 def optStr {α} (f : α → String) : Option α → String
   | none => "none"
